@@ -23,7 +23,7 @@ P = {
                  "C13_F4_pinned_refuted", "C13_F4_pinned_refuted_view", "C13_F6_pinned_refuted", "C13_F7_pinned_refuted",
                  "C13_F3b_refuted", "C13_F5_refuted", "C13_F5_refuted_handover", "C13_F8_refuted", "C13_F9_pinned_refuted", "C13_F11_pinned_refuted",
                  "C13_nonvacuous", "C13_nonvacuous_pinned", "C13_nonvacuous_redirect",
-                 "C13_deployed_decision_same_url", "C13_F10_refuted"],
+                 "C13_deployed_decision_same_url", "C13_deployed_decision_same_url_repo", "C13_F10_pinned_refuted"],
     "streams": [{
         "name": "entrypoints", "pkg": "./internal/zzverif/c13", "test": "TestVerifC13",
         "overlay": dict(ASSEMBLY_OVERLAY, **{"internal/zzverif/c13/c13_test.go": "c13/c13_test.go"}),
@@ -34,8 +34,8 @@ P = {
     }, {
         "name": "deployed", "pkg": "./internal/zzverif/c13", "test": "TestVerifC13Deployed",
         "overlay": dict(ASSEMBLY_OVERLAY, **{"internal/zzverif/c13/c13_test.go": "c13/c13_test.go"}),
-        "eval_module": "Run.Eval_C13", "check_term": "check_tp",
-        "n_quick": 300, "n_thorough": 6000, "findings": {10: "C13-F10"}, "shard": 150,
+        "eval_module": "Run.Eval_C13", "check_term": "check_tp_repo",
+        "n_quick": 300, "n_thorough": 6000, "findings": {}, "shard": 150,
     }],
     "rule": "Stream entrypoints: per group of 40 cases one generated rule set of 4-7 rules (path expressions /rK/lit, /rK/:name, "
             "/rK/:a/x/:b, /rK/**, /rK/*rest, /rK/v1/:name; allow_encoded_slashes unset/off/on/no_decode; optional route conditions on "
@@ -94,14 +94,14 @@ P = {
                   "executor's two-phase use of the view and the three Finalize) reach the same decision incl. the redirect target, match "
                   "the same rule, answer every read of the view alike and hand the same headers and cookies over - outside the guards of "
                   "the findings that are open in the tree.  The theorems hold for every subset of the repairs (record `fixes`); for "
-                  "/repo (eight findings repaired by fix: commits) the open guards are: a Cookie(n) read whose own parts of the Cookie line "
+                  "/repo (nine findings repaired by fix: commits) the open guards are: a Cookie(n) read whose own parts of the Cookie line "
                   "are not plain and sanitised cookie values on hand-over (C13-F5), Headers() read as a whole map (C13-F8: the key Host; "
                   "every other key is proved equal), blank-padded values of a header added twice (C13-F3b) - captures, header names, Host, "
                   "URL parts, the encoded-slash check, the body in either Envoy field and the query inside Envoy's `path` are unguarded; "
                   "each open or repaired finding has a proved witness (differs without the repair, agrees with it, same request).  "
                   "Separately: conveyed through X-Forwarded-* by a trusted proxy (the decision service as deployed) a request gives the "
-                  "same method, scheme, host, path and query as when received directly unless the query is not its own re-encoding "
-                  "(C13-F10).  Lemmas of independent use: Header(n) agrees for ALL names and header multisets; Headers() agree on every "
+                  "same method, scheme, host, path and query as when received directly (no guard since fix: f446e16; the pinned "
+                  "re-encoding of the query is kept as C13_F10_pinned_refuted).  Lemmas of independent use: Header(n) agrees for ALL names and header multisets; Headers() agree on every "
                   "key but Host; net/http's and grpcv3's cookie readers agree under a name whenever the parts concerning that name are "
                   "plain.  The model is tied to the code by sending ~1100 (quick) / 24000 (thorough) generated requests per run to the "
                   "three real assembled applications loaded with generated rule sets, plus 300 / 6000 requests to two decision services "
